@@ -88,6 +88,9 @@ def scipy_scenario(rng: random.Random, prop: str, *, method: str | None = None, 
         variables["upper_bounds"] = ub
     if mask is not None:
         variables["mask"] = mask
+    if rng.random() < (0.5 if method == DE else 0.15):
+        # integer variables (VariableType.INTEGER = 2): part of the problem for methods that support integrality
+        variables["types"] = rng.choice([2, [rng.choice([1, 2]) for _ in range(nv)], [rng.choice([1, 2]) for _ in range(nv)]])
     cfg: dict[str, Any] = {"variables": variables, "objectives": {"weights": gen.gen_weights(rng, no, zeros=False)},
                            "realizations": {"weights": [1.0]}}
     # non-linear constraints
